@@ -31,6 +31,7 @@ class Length:
     pure_shortcut = False
     def __init__(s):
         s.U = L("unk"); s.Z = L("unk"); s.obligations = []
+        s.facts = []        # [(big Lin, small Lin)]: linear facts  big >= small  supplied by the driver for one arm
     def arr(s, lin): return L("arr", lin)
     def int_(s, lin): return L("int", lin)
     def sym(s, name): return Lin({name: 1})
@@ -74,7 +75,7 @@ class Length:
         if v.kind == "arr" and isinstance(sl, ast.Slice) and sl.lower is None and sl.step is None and sl.upper is not None:
             up = s.interp.flat(s.interp.eval(sl.upper, s.scope, 0)) if getattr(s, "scope", None) is not None else None
             if up is not None and up.kind == "int":
-                if v.lin.ge(up.lin): return L("arr", up.lin)
+                if v.lin.ge(up.lin) or any(v.lin == b and up.lin == sm for b, sm in s.facts): return L("arr", up.lin)
                 if up.lin.ge(v.lin): return v
         return L("unk") if v.kind != "arr" or not isinstance(sl, ast.Slice) else L("unk")
     def attribute(s, v, name):
